@@ -92,6 +92,19 @@ func NewLoop(o Options) *Loop {
 	ins, _ := l.Drv.Ins()
 	outs, _ := l.Drv.Outs()
 	l.In, l.Out = ins[0], outs[0]
+	// the options come out of a slice of the caller's with room behind them (a
+	// prefix of a longer list): what lies behind the prefix is the caller's
+	opts := o.List()
+	arena := make([]midi.Option, len(opts), len(opts)+2)
+	copy(arena, opts)
+	behind := arena[: len(opts)+1 : len(opts)+1]
+	behind[len(opts)] = midi.UseSysEx()
+	before := reflect.ValueOf(behind[len(opts)]).Pointer()
+	defer func() {
+		if reflect.ValueOf(behind[len(opts)]).Pointer() != before && OnViolation != nil {
+			OnViolation("listen:writes-into-the-callers-option-slice", "ListenTo(in, f, list[:k]...) changed list[k]: the option behind the ones that were passed is another function now")
+		}
+	}()
 	l.Stop, l.Err = midi.ListenTo(l.In, func(m midi.Message, ts int32) {
 		l.Got = append(l.Got, Delivered{Msg: append([]byte(nil), m...), TS: ts})
 		// a receiver may keep the message it was handed: remember the very slice
@@ -100,12 +113,15 @@ func NewLoop(o Options) *Loop {
 		if len(l.kept) > 64 {
 			l.kept, l.keptCopy = l.kept[32:], l.keptCopy[32:]
 		}
-	}, o.List()...)
+	}, arena...)
 	if l.Err == nil {
 		l.Err = l.Out.Open()
 	}
 	return l
 }
+
+// OnViolation, if set by the check, receives what the wrapper itself finds.
+var OnViolation func(sig, what string)
 
 // Overwritten reports a message that was handed to the listener earlier and
 // whose bytes have changed since (a buffer shared between deliveries).
